@@ -54,7 +54,13 @@ func (q QInst) candsFor(cands []string, kinds map[string]int) []string {
 
 // instantiate returns the instance of q at term c, in which every nested recorded quantifier is strengthened
 // by its own instances at the candidate terms (depth-limited)
+// nestedCands: when the candidate list is long, nested quantifiers are instantiated only at the terms that come
+// from the goal itself (its skolem constants, their neighbours and its index terms); set per query by BuildQueryX
 func (q QInst) instantiate(c string, cands []string, depth int, groundOnly bool, kinds map[string]int) string {
+	return q.instantiateN(c, cands, cands, depth, groundOnly, kinds)
+}
+
+func (q QInst) instantiateN(c string, cands []string, nested []string, depth int, groundOnly bool, kinds map[string]int) string {
 	inst := strings.ReplaceAll(q.Inst, q.Var, c)
 	if depth <= 0 {
 		if groundOnly {
@@ -77,8 +83,8 @@ func (q QInst) instantiate(c string, cands []string, depth int, groundOnly bool,
 		if groundOnly {
 			parts = nil
 		}
-		for _, c2 := range append(append([]string{}, sub.candsFor(cands, kinds)...), ch.Consts...) {
-			parts = append(parts, sub.instantiate(c2, cands, depth-1, groundOnly, kinds))
+		for _, c2 := range append(append([]string{}, sub.candsFor(nested, kinds)...), ch.Consts...) {
+			parts = append(parts, sub.instantiateN(c2, cands, nested, depth-1, groundOnly, kinds))
 		}
 		inst = strings.Replace(inst, chForall, sAnd(parts...), 1)
 	}
